@@ -22,7 +22,7 @@ ASSUMPTIONS = ["model of the acceptance rules and of expansion is written from t
                "canonical comparison: unordered nested tuples of case-folded short-form tag text"]
 MIN_MONITOR_EVALS = {"candidate-verdict": 500, "expansion-equals-model": 500, "expand-idempotent": 500,
                      "shrink-inverts-expand": 500, "history-step-invariant": 2000, "def-expand-validation": 300,
-                     "columnwise-agrees": 100, "duplicate-ignored": 50}
+                     "columnwise-agrees": 100, "duplicate-ignored": 50, "def-expand-unplugged-content": 20}
 VERSIONS = {"quick": ["8.3.0", "8.2.0", "score_2.0.0"], "thorough": ["8.3.0", "8.2.0", "8.1.0", "8.0.0", "score_2.0.0",
                                                                      "score_1.1.0", "testlib_3.0.0"]}
 
@@ -371,17 +371,23 @@ def check_def_expand_validation(case, rec):
     schema = env.schema(case["schema"])
     dd = DefinitionDict(case["defs"], schema)
     rec.mon("def-expand-validation")
-    try:
-        issues = HedString(case["text"], schema, dd).validate(allow_placeholders=False)
-    except Exception as ex:  # noqa
-        rec.violation(f"validate raised {type(ex).__name__}", case)
-        return
-    errs = {i["code"] for i in issues if i["severity"] == ErrorSeverity.ERROR}
-    if case["expect"] == "valid" and errs:
-        rec.violation(f"Def-expand group equal to the expansion up to order is rejected: {sorted(errs)}", case,
-                      key="def-expand-order-sensitive" if errs == {"DEF_EXPAND_INVALID"} else None)
-    if case["expect"] != "valid" and "DEF_EXPAND_INVALID" not in errs:
-        rec.violation("altered Def-expand content accepted", case)
+    # in a data row (no placeholders) and in a sidecar entry (placeholders allowed) the verdict on the content is the same
+    for allow in (False, True):
+        try:
+            issues = HedString(case["text"], schema, dd).validate(allow_placeholders=allow)
+        except Exception as ex:  # noqa
+            rec.violation(f"validate raised {type(ex).__name__}", case)
+            return
+        errs = {i["code"] for i in issues if i["severity"] == ErrorSeverity.ERROR}
+        where = " (placeholders allowed)" if allow else ""
+        if case["expect"] == "valid" and errs:
+            rec.violation(f"Def-expand group equal to the expansion up to order is rejected{where}: {sorted(errs)}", case,
+                          key="def-expand-order-sensitive" if errs == {"DEF_EXPAND_INVALID"} else None)
+        if case["expect"] != "valid" and "DEF_EXPAND_INVALID" not in errs:
+            rec.violation(f"altered Def-expand content accepted{where}", case,
+                          key="def-expand-unplugged-content" if "#" in case["text"] else None)
+        if "#" in case["text"]:
+            rec.mon("def-expand-unplugged-content")
 
 
 def check_columnwise(case, rec):
@@ -495,6 +501,7 @@ def run_shard(shard, rec):
             rec.case((v, tuple(defs), gcase["text"]))
             check_def_expand_validation(gcase, rec)
             saved = set(gen.used)
+            gen.allow_unplug = True
             m = annot.mutate(gen, [gen._plain_atom()], "altered-def-expand", rng)
             gen.used = saved
             if m:
